@@ -390,7 +390,7 @@ struct Exec {
                 for (int c : r.vp)
                     if (c < 0 || c >= w.ncls)
                         return invalid("load: bad class in definition");
-                s.ops->load_def(ri, m.slot, r.body, refs(ri, r.vp));
+                s.ops->load_def(ri, m.slot, r.body, refs(ri, r.vp), !r.nonext);
                 s.live.defs[r.meth].push_back(ri);
                 break;
             }
@@ -903,6 +903,8 @@ struct Exec {
         std::map<std::string, std::string>& table) {
         for (auto& m : mv) {
             for (int di : m.defs) {
+                if (plan.recs[di].nonext)
+                    continue; // registered without a next slot
                 Res r = next_of(plan, L, m.defs, di);
                 std::uintptr_t want = expected_pf(s, m, r);
                 std::uintptr_t got =
@@ -1296,6 +1298,7 @@ struct Exec {
                 if (stop)
                     return;
                 if (e.call_next && want.kind == RES_DEF &&
+                    !plan.recs[want.def].nonext &&
                     next_done.insert(want.def).second) {
                     verify_call(s, L, m, tuple, args, want, false, true, "C01");
                     if (stop)
